@@ -158,6 +158,50 @@ impl<'a> RefSearch<'a> {
         best
     }
 
+    /// alpha-beta on the tree of lines with the repetition rule (values are path dependent, the
+    /// tree is searched as a tree — no table — so full-window alpha-beta is still exact)
+    pub fn negamax_ab_rep(&mut self, line: &mut Vec<Pos>, ply: usize, depth: usize, mut alpha: i32, beta: i32) -> i32 {
+        self.nodes += 1;
+        let p = line.last().unwrap().clone();
+        if let Some(rule) = self.repetition {
+            if Self::occurrences(line) >= 3 {
+                let sign = if ply % 2 == 0 { 1 } else { -1 };
+                return rule.draw + sign * rule.contempt;
+            }
+        }
+        let mut moves = p.legal();
+        if moves.is_empty() {
+            return (self.eval)(&p, false);
+        }
+        if ply == depth {
+            return self.quiesce_ab(&p, alpha, beta);
+        }
+        moves.sort_by_key(|m| (-(m.captured as i32) * 16 - (m.promo as i32) * 4 + m.piece as i32, m.from, m.to));
+        let mut best = -i32::MAX;
+        for m in moves {
+            line.push(p.make(&m));
+            let v = -self.negamax_ab_rep(line, ply + 1, depth, -beta, -alpha);
+            line.pop();
+            if v > best {
+                best = v;
+                if v > alpha {
+                    alpha = v;
+                }
+                if alpha >= beta {
+                    break;
+                }
+            }
+        }
+        best
+    }
+
+    /// root value with history + repetition rule, alpha-beta
+    pub fn root_value_ab_rep(&mut self, root: &Pos, depth: usize) -> i32 {
+        let mut line = self.history.clone();
+        line.push(root.clone());
+        self.negamax_ab_rep(&mut line, 0, depth, -i32::MAX, i32::MAX)
+    }
+
     /// root values of every legal move with the alpha-beta reference (each child on a full window,
     /// so every listed value is exact)
     pub fn root_ab(&mut self, root: &Pos, depth: usize) -> (i32, Vec<(Mv, i32)>) {
